@@ -132,6 +132,7 @@ func hb(b bool) string {
 }
 
 type Sim struct {
+	Addr   thor.Address // the staker contract account
 	Cfg    Cfg
 	St     *state.State
 	Stk    *staker.Staker
@@ -154,7 +155,7 @@ func NewSim(g Cfg) *Sim {
 	st := state.New(db, trie.Root{})
 	st.SetCode(stakerAddr, []byte{0x60}) // the account exists, as after genesis
 	p := params.New(paramsAddr, st)
-	s := &Sim{Cfg: g, St: st, Params: p, FC: &thor.ForkConfig{HAYABUSA: g.Hayabusa}}
+	s := &Sim{Addr: stakerAddr, Cfg: g, St: st, Params: p, FC: &thor.ForkConfig{HAYABUSA: g.Hayabusa}}
 	s.Stk = staker.New(stakerAddr, st, p, nil)
 	if g.MBP != 0 {
 		p.Set(thor.KeyMaxBlockProposers, new(big.Int).SetUint64(g.MBP))
@@ -166,28 +167,28 @@ func NewSim(g Cfg) *Sim {
 }
 
 func (s *Sim) slot0() *big.Int {
-	v, err := s.St.GetStorage(stakerAddr, thor.Bytes32{})
+	v, err := s.St.GetStorage(s.Addr, thor.Bytes32{})
 	if err != nil {
 		panic(err)
 	}
 	return new(big.Int).SetBytes(v.Bytes())
 }
 func (s *Sim) balance() *big.Int {
-	b, err := s.St.GetBalance(stakerAddr)
+	b, err := s.St.GetBalance(s.Addr)
 	if err != nil {
 		panic(err)
 	}
 	return b
 }
 func (s *Sim) setSlot0(x *big.Int) {
-	s.St.SetStorage(stakerAddr, thor.Bytes32{}, thor.BytesToBytes32(x.Bytes()))
+	s.St.SetStorage(s.Addr, thor.Bytes32{}, thor.BytesToBytes32(x.Bytes()))
 }
 
 // the value-carrying statements of staker.sol (the contract itself is not executed at this level)
 func checkStake(vet uint64) bool { return vet > 0 && vet <= 100_000_000_000 }
 func (s *Sim) payIn(vet uint64) {
 	wei := new(big.Int).Mul(new(big.Int).SetUint64(vet), e18)
-	s.St.SetBalance(stakerAddr, new(big.Int).Add(s.balance(), wei))
+	s.St.SetBalance(s.Addr, new(big.Int).Add(s.balance(), wei))
 	s.setSlot0(new(big.Int).Add(s.slot0(), wei))
 }
 func (s *Sim) payOut(vet uint64) bool {
@@ -196,7 +197,7 @@ func (s *Sim) payOut(vet uint64) bool {
 		return false
 	}
 	s.setSlot0(new(big.Int).Sub(s.slot0(), wei))
-	s.St.SetBalance(stakerAddr, new(big.Int).Sub(s.balance(), wei))
+	s.St.SetBalance(s.Addr, new(big.Int).Sub(s.balance(), wei))
 	return true
 }
 
@@ -330,7 +331,7 @@ func (s *Sim) Apply(o Op) (out Outcome) {
 		}
 		return Outcome{}
 	case "DN":
-		s.St.SetBalance(stakerAddr, new(big.Int).Add(s.balance(), new(big.Int).SetUint64(o.X)))
+		s.St.SetBalance(s.Addr, new(big.Int).Add(s.balance(), new(big.Int).SetUint64(o.X)))
 		return Outcome{}
 	}
 	panic("unknown op " + o.K)
